@@ -9,7 +9,8 @@ import (
 // GenOpts selects what the generator may produce.
 type GenOpts struct {
 	Shared     bool // some receivers/exporters are cross-signal shared (sharedcomponent) types
-	Extensions bool // generate extensions with a dependency DAG
+	Extensions bool // generate extensions with a dependency DAG, capabilities, repeated list entries
+	Profiles   bool // profiles pipelines and 4×4 connector support matrices
 	// Invalid: probability (percent) per connector link of drawing an
 	// unconstrained link (backward, self, unsupported pair) or a half use.
 	Invalid int
@@ -87,19 +88,25 @@ func Gen(t *rapid.T, o GenOpts) Topology {
 		}
 		tp.Exporters = append(tp.Exporters, fmt.Sprintf("%s/e%d", ty, i))
 	}
+	signals := Signals
+	if o.Profiles {
+		signals = Signals4
+	}
 	var allPairs []string
-	for _, a := range Signals {
-		for _, b := range Signals {
+	for _, a := range signals {
+		for _, b := range signals {
 			allPairs = append(allPairs, a+">"+b)
 		}
 	}
 	for i := 0; i < nc; i++ {
 		c := Connector{ID: fmt.Sprintf("%s%d/c", connTypePrefix, i)}
-		switch pick(t, "pairs-mode", []int{0, 0, 1, 2, 2}) {
+		// mostly an independently drawn support matrix (one fair coin per (from, to) cell, so asymmetric
+		// matrices are the norm); sometimes everything, sometimes the diagonal only
+		switch pick(t, "pairs-mode", []int{2, 0, 2, 1, 2}) {
 		case 0:
 			c.Pairs = append([]string(nil), allPairs...)
 		case 1:
-			for _, s := range Signals {
+			for _, s := range signals {
 				c.Pairs = append(c.Pairs, s+">"+s)
 			}
 		default:
@@ -116,8 +123,8 @@ func Gen(t *rapid.T, o GenOpts) Topology {
 	// pipelines: signals drawn from a prefix of a permutation so that several
 	// pipelines of one signal (shared receivers/exporters) are common
 	npipe := pick(t, "npipe", []int{3, 2, 4, 1, 5, 6, 2, 3, 4})
-	sigs := rapid.Permutation(Signals).Draw(t, "sigperm")
-	nsig := rapid.IntRange(1, 3).Draw(t, "nsig")
+	sigs := rapid.Permutation(signals).Draw(t, "sigperm")
+	nsig := rapid.IntRange(1, len(signals)).Draw(t, "nsig")
 	used := map[string]bool{}
 	for i := 0; i < npipe; i++ {
 		pl := Pipeline{Signal: pick(t, "signal", sigs[:nsig])}
@@ -226,7 +233,19 @@ func Gen(t *rapid.T, o GenOpts) Topology {
 			if len(x.Deps) == 0 {
 				x.Plain = rapid.Bool().Draw(t, "plain")
 			}
+			x.PipelineWatcher = pct(t, "pipeline-watcher", 40)
+			x.ConfigWatcher = pct(t, "config-watcher", 40)
 			tp.Extensions = append(tp.Extensions, x)
+		}
+		// service::extensions may mention an id more than once
+		if nx > 0 && pct(t, "ext-repeat", 25) {
+			tp.ExtList = append([]string(nil), ids...)
+			nrep := rapid.IntRange(1, 2).Draw(t, "ext-repeat-n")
+			for r := 0; r < nrep; r++ {
+				id := pick(t, "ext-repeat-id", ids)
+				at := rapid.IntRange(0, len(tp.ExtList)).Draw(t, "ext-repeat-at")
+				tp.ExtList = append(tp.ExtList[:at:at], append([]string{id}, tp.ExtList[at:]...)...)
+			}
 		}
 	}
 	return tp
